@@ -4,6 +4,7 @@ import (
 	"go/ast"
 	"go/token"
 	"strconv"
+	"strings"
 )
 
 // C02: constants and small structural facts of the time index / ranged read path.
@@ -242,6 +243,23 @@ func init() {
 		if dropOnlyLoaded != onWriteLoadedMiddle {
 			problem("cindex: snapshot-entry handling only partly recognised: dropStale tests loaded=%v, onWrite treats a loaded entry written beyond Recs as new=%v", dropOnlyLoaded, onWriteLoadedMiddle)
 		}
+		// repair of F53 (proposed): syncChunks' second critical section keeps known chunks that are newer than the last chunk of
+		// the caller's list (a comparison of an entry's Id with the Id() of a chunk of the list inside syncChunks)
+		keepsNewer := false
+		if fd := funcDecl(fc, "cindex", "syncChunks"); fd != nil {
+			ast.Inspect(fd.Body, func(n ast.Node) bool {
+				if be, ok := n.(*ast.BinaryExpr); ok && (be.Op == token.GTR || be.Op == token.LEQ) {
+					if se, ok := be.X.(*ast.SelectorExpr); ok && se.Sel.Name == "Id" {
+						if ce, ok := be.Y.(*ast.CallExpr); ok {
+							if se2, ok := ce.Fun.(*ast.SelectorExpr); ok && se2.Sel.Name == "Id" {
+								keepsNewer = true
+							}
+						}
+					}
+				}
+				return true
+			})
+		}
 		staleRepair := onWriteSetsRecs && lightFillSetsRecs && dropsStale && dropStaleStrict
 		if (onWriteSetsRecs || lightFillSetsRecs || dropsStale) && !staleRepair {
 			problem("cindex: the stale-entry handling (onWrite/lightFill set Recs, syncChunks calls dropStale, stale = Count() > Recs) is only partly recognised: onWrite=%v lightFill=%v syncChunks=%v strict=%v", onWriteSetsRecs, lightFillSetsRecs, dropsStale, dropStaleStrict)
@@ -289,6 +307,19 @@ func init() {
 			problem("chkSelector.updatePoss not found")
 		}
 		lowerAskMinusOne := decr && askVar != "" && askVar != "sel:MinTs"
+		// repair of F46 (proposed): updatePoss asks the index how many records it has been told about (optional capability
+		// KnownRecords) and leaves the whole chunk open when the confirmed count is above it
+		opensUnknownTail := false
+		if fd := funcDecl(fs, "chkSelector", "updatePoss"); fd != nil {
+			ast.Inspect(fd.Body, func(n ast.Node) bool {
+				if ce, ok := n.(*ast.CallExpr); ok {
+					if se, ok := ce.Fun.(*ast.SelectorExpr); ok && strings.HasPrefix(se.Sel.Name, "KnownRecords") {
+						opensUnknownTail = true
+					}
+				}
+				return true
+			})
+		}
 
 		// --- fiterator.go fitInRange
 		ff := parseFile("pkg/cursor/fiterator.go")
@@ -443,12 +474,16 @@ func init() {
 		l.p("def syncChunksDropsStaleEntries : Bool := %s", leanBool(staleRepair))
 		l.p("/-- … but only entries read from the snapshot file at start (`loaded`), compared once; `onWrite` on such an entry beyond the records it accounts for treats the chunk as notified from the middle (fix 7ea0278). Entries of a running server are never dropped. -/")
 		l.p("def staleDropOnlyForSnapshotEntries : Bool := %s", leanBool(dropOnlyLoaded && onWriteLoadedMiddle))
+		l.p("/-- `syncChunks`' second critical section keeps a known chunk that is newer than the last chunk of the caller's list (repair of F53); false: every known chunk missing from the list is forgotten -/")
+		l.p("def syncChunksKeepsNewerChunks : Bool := %s", leanBool(keepsNewer))
 		l.p("/-- `lightFill` treats `MaxTs > 0` as \"hull known\" -/")
 		l.p("def lightFillKnownMeansPositive : Bool := %s", leanBool(lightFillPositive))
 		l.p("/-- `maxRecsPerBlock`: records per index block -/")
 		l.p("def maxRecsPerBlock : Nat := %d", maxRecs)
 		l.p("/-- `updatePoss` hands `MinTs - 1` (a decremented copy) to `GetPosForGreaterOrEqualTime` (fix 94ffdf8) -/")
 		l.p("def lowerAskMinusOne : Bool := %s", leanBool(lowerAskMinusOne))
+		l.p("/-- `updatePoss` leaves the whole chunk open when the confirmed count is above the number of records the index has been told about (`KnownRecords` = `Recs`; repair of F46) -/")
+		l.p("def updatePossOpensUnknownTail : Bool := %s", leanBool(opensUnknownTail))
 		l.p("/-- `fitInRange` compares with `>=` at the lower and `<=` at the upper bound -/")
 		l.p("def fitLowerInclusive : Bool := %s", leanBool(loOp == ">="))
 		l.p("def fitUpperInclusive : Bool := %s", leanBool(hiOp == "<="))
